@@ -26,6 +26,7 @@ func specC02() *propertySpec {
 			{"C02-R4", "recover-census: every recover() is a converter (→ panicToError → error result), an invalidData filter that re-panics everything else, or a typed *testError assertion; 'no panic' is not inferred from recover() == nil alone", func(r *Run) { ruleC02R4(r); ruleC02R4nil(r) }},
 			{"C02-R5", "classification: findBug counts nil as valid, invalidData as invalid and returns every other error (shared with C09-R2); checkFuzz maps nil/invalid/other to pass/Skip/Fatal (C13-R2)", func(r *Run) { ruleC09R2(r); ruleC13R2(r) }},
 			{"C02-R6", "verdict-fails-TB: doCheck's failure returns carry findBug's error; checkTB fails the TB on every non-pass path and calls FailNow (shared with C09-R3/R4)", func(r *Run) { ruleC02R6(r); ruleC09R3(r); ruleC09R4(r) }},
+			{"C02-R9", "replayed-falsification-is-kept: the fail-file phase of doCheck returns whenever one of checkFailFile's two errors is non-nil (a fail file that fails once and then passes is reported as flaky, not dropped) and moves on only when both are nil (shared with C06-R5)", ruleC06R5},
 			{"C02-R8", "panic-survives-cleanup: a falsifying panic of the property cannot be replaced by a skip raised from a cleanup callback before the verdict is formed", ruleC02R8},
 			{"C02-R7", "cross-goroutine: T.failed is only accessed under T.mu (shared with C14-R1)", func(r *Run) { ruleC14R1(r, map[string]bool{"failed": true}) }},
 		},
